@@ -429,6 +429,10 @@ pub struct Prog {
     /// (variable name, value of the variable's declared type)
     #[serde(default)]
     pub inputs: Vec<Vec<(String, V)>>,
+    /// execution budget per cycle in milliseconds for programs that are MEANT not to terminate
+    /// (family F14): the expected outcome of every cycle is then the budget-timeout fault
+    #[serde(default)]
+    pub budget_ms: Option<u64>,
 }
 
 // ---------------------------------------------------------------------------------------------
